@@ -993,3 +993,33 @@ GROUPS["p16"] = [
       "        .position(|c| matches!(c, '@' | '/' | ' ' | '\\n' | '\\t' | '\\r'))\n        .filter(|i| source[*i] == '@');",
       None),
 ]
+
+# ---- round 7: the five defects repaired as F24-F28, reintroduced; shapes of seeded/*-g; harmless twins
+GROUPS["g29"] = [
+    E("c01-typst-range-unwrap", ["C01"], "harper-typst/src/offset_cursor.rs",
+      "        match self.doc.range(span) {\n            Some(range) => self.push_to(range.start),\n            None => self,\n        }",
+      "        let new_byte = self.doc.range(span).unwrap().start;\n\n        self.push_to(new_byte)",
+      "R-C01-detached:OffsetCursor::push_to_span:range-unwrap"),
+    E("c01-overlap-filter-predecessor", ["C01"], "harper-tree-sitter/src/lib.rs",
+      "    let mut last_kept: Option<Span> = None;\n    byte_spans.retain(|cur| {\n        if last_kept.is_some_and(|prev| cur.overlaps_with(prev)) {\n            return false;\n        }\n\n        last_kept = Some(*cur);\n        true\n    });",
+      "    let cloned = byte_spans.clone();\n\n    let mut i: usize = 0;\n    byte_spans.retain(|cur| {\n        i += 1;\n        if let Some(prev) = cloned.get(i.wrapping_sub(2)) {\n            !cur.overlaps_with(*prev)\n        } else {\n            true\n        }\n    });",
+      "R-C01-kept:byte_spans_to_char_spans:overlap-filter"),
+    E("c02-markdown-cover-by-text", ["C02"], "harper-core/src/parsers/markdown.rs",
+      "                | pulldown_cmark::Event::InlineHtml(_content) => {\n                    tokens.push(Token {\n                        span: Span::new_with_len(traversed_chars, range_chars),",
+      "                | pulldown_cmark::Event::InlineHtml(_content) => {\n                    tokens.push(Token {\n                        span: Span::new_with_len(traversed_chars, _content.chars().count()),",
+      "R-C02-cover:Markdown::parse:cover-length"),
+    E("c09-deleted-prefix-bare", ["C09"], "harper-ls/src/backend.rs",
+      "                let to_remove = url.as_str().strip_prefix(deleted).is_some_and(|rest| {\n                    rest.is_empty() || rest.starts_with('/') || deleted.ends_with('/')\n                });",
+      "                let to_remove = url.as_str().starts_with(deleted);",
+      "R-C09-publish:Backend::did_change_watched_files:deleted-path-prefix"),
+    E("c01-hex-expect", ["C01"], "harper-core/src/lexing/mod.rs",
+      "    if let Ok(n) = u64::from_str_radix(&s, 16) {",
+      "    if let Some(n) = Some(u64::from_str_radix(&s, 16).expect(\"validated above\")) {",
+      "R-C01-intparse:harper_core::lexing::lex_hex_number:from_str_radix"),
+    E("c12-unstable-sort", ["C12"], "harper-core/src/lib.rs",
+      "    lints.sort_by_key(", "    lints.sort_unstable_by_key(",
+      "R-C12-stable:harper_core::remove_overlaps:sort_unstable_by_key"),
+    E("c18-latin-exact-word", ["C18"], "harper-core/src/document.rs",
+      "SequencePattern::aco(\"et\")", "SequencePattern::default().then_exact_word(\"et\")",
+      "R-C18-idem:Document::uncached_latin_pattern:case-free"),
+]
